@@ -108,4 +108,19 @@ CHECKS = {
              "oracle: restart exits 0 without panic and every bucket whose creating write was acknowledged answers an "
              "all-time query; non-trivial = crash points strictly inside a primary-file write sequence",
     ),
+    "C04": dict(
+        test="TestC04", level="fault_enumeration", shards=16, cmds=["mkwork", "mkrestart"], engine="crash-engine",
+        tiers=dict(quick=dict(checks=1, timeout=900), thorough=dict(checks=5, timeout=3400, env=dict(VERIF_MAXOPS=9, VERIF_MAXVARIANTS=12))),
+        technique="crash-point x power-loss-variant enumeration over strace-recorded runs of generated histories",
+        env=dict(VERIF_SHRINK="5s"),
+        rule="strace-recorded generated histories (as C01) x every syscall-prefix crash point x a bounded set of "
+             "power-loss variants of the data writes not yet covered by fsync(file)/sync(): drop all, drop primary only, "
+             "drop WAL only, drop each single write, keep only the first j, tear the last write of a file at 512-byte "
+             "boundaries, random subsets (quick: <=3 per point, thorough: <=12); metadata operations are never dropped; "
+             "oracle: restart succeeds and every acknowledged write is recovered (duplicates allowed); non-trivial = the "
+             "variant loses or tears a write belonging to an acknowledged request",
+        assumptions=["power-loss model: only file DATA written after the file's last fsync / the last sync() can be lost "
+                     "or torn at sector granularity; creates, renames, size changes and unlinks persist in order",
+                     "bounded variant enumeration per crash point"],
+    ),
 }
